@@ -4,8 +4,8 @@ from . import common
 
 LEVEL = "other"
 EXHAUSTIVE = True
-EXPLANATION = ("On every skeleton instance: one skip set in advance, init_skip and is_skipped, containing Error (S14); Parser.current "
-               "is only assigned a token outside the skip set for which predicate_skip is false, or end_of_input (S15); peek and "
+EXPLANATION = ("On every skeleton instance: wherever a fetched token is pushed, the skip flag is true exactly for tokens in is_skipped's set (which contains Error) or marked by predicate_skip, decided per token class by path enumeration (S14); Parser.current "
+               "is only assigned a significant token, or end_of_input (S15); peek and "
                "peek_left filter through is_skipped (S16); node end offsets derive from non_skip_len, which advance updates only on "
                "the non-skip edge (S17). Equality of trees and diagnostics modulo trivia is not decided.")
 
